@@ -125,6 +125,9 @@ pub struct ShapeIterator<'a, T: Read, S: ReadableShape> {
     // Where the source has to be positioned before the first shape is read:
     // a new iteration does not rely on where earlier calls left the source.
     seek_to: Option<u64>,
+    // Set once an error has been returned: the position in the source is then
+    // unknown, the iteration is over.
+    failed: bool,
 }
 
 impl<T: Read + Seek, S: ReadableShape> Iterator for ShapeIterator<'_, T, S> {
@@ -134,11 +137,12 @@ impl<T: Read + Seek, S: ReadableShape> Iterator for ShapeIterator<'_, T, S> {
         // Without an index the shapes follow each other up to the length declared in the
         // header. With an index, the index alone tells where the shapes are and how many
         // there are (they may be stored in any physical order, separated by other bytes).
-        if self.shapes_indices.is_none() && self.current_pos >= self.file_length {
+        if self.failed || (self.shapes_indices.is_none() && self.current_pos >= self.file_length) {
             None
         } else {
             if let Some(pos) = self.seek_to.take() {
                 if let Err(err) = self.source.seek(SeekFrom::Start(pos)) {
+                    self.failed = true;
                     return Some(Err(err.into()));
                 }
             }
@@ -149,13 +153,17 @@ impl<T: Read + Seek, S: ReadableShape> Iterator for ShapeIterator<'_, T, S> {
                 let start_pos = shapes_indices.next()?.offset * 2;
                 if start_pos != self.current_pos as i32 {
                     if let Err(err) = self.source.seek(SeekFrom::Start(start_pos as u64)) {
+                        self.failed = true;
                         return Some(Err(err.into()));
                     }
                     self.current_pos = start_pos as usize;
                 }
             }
             let (hdr, shape) = match read_one_shape_as::<T, S>(self.source) {
-                Err(e) => return Some(Err(e)),
+                Err(e) => {
+                    self.failed = true;
+                    return Some(Err(e));
+                }
                 Ok(hdr_and_shape) => hdr_and_shape,
             };
             self.current_pos += record::RecordHeader::SIZE;
@@ -394,6 +402,7 @@ impl<T: Read + Seek> ShapeReader<T> {
             file_length,
             shapes_indices,
             seek_to: Some(start_pos as u64),
+            failed: false,
         }
     }
 
